@@ -90,6 +90,13 @@ func (m *MethodEvaluator) isNotArgT(
 		return true
 	}
 
+	// `x.to_s; y = 1` and `do |x| x.to_s end`: the arguments of a call without
+	// parentheses stop where its statement stops
+	if !m.isParentheses && (t.IsTargetIdentifier(";") || t.IsEndIdentifier()) {
+		m.parser.Unget()
+		return true
+	}
+
 	if t.IsTargetIdentifier("!") {
 		return false
 	}
